@@ -31,4 +31,10 @@ LEVEL_TEXT = {
         "note": "Reference handlers run outside the bubble on immutable copies; torn responses and failed-reload visibility of the RocksDB catch-up are C05's statements and are not judged here. Two genuine defects were found and fixed (cache key collision; stale insertion after purge).",
         "technique": "deterministic simulation: differential against a per-generation cache-off reference + register linearizability under seeded query/reload interleavings and clock jumps",
     },
+    "C19": {
+        "text": "Two simulated populations. (i) The real metrics.Stats sliding window and its cleaner goroutine on the fake clock, driven by seeded timed histories of AddSample / advance / Get with the cleaner scheduled at its tick; every export is compared with a reference window (live samples must be reported, expired ones may linger until the next cleaner pass, no value that was never added), plus bounded liveness (empty after lifetime + 5.5 s of silence). (ii) The simulated server with recording Stats and Logger: per query, counter deltas and logger calls must be exactly what the message written dictates, under concurrent clients and reloads. Evidence, not proof.",
+        "design_ref": "§5.10",
+        "note": "The reference window and the per-goroutine attribution of counter increments are trusted. Sum-of-increments under real parallelism is the business of the free-running race tier (C14). One genuine defect found and fixed (cleaner dropped live samples).",
+        "technique": "deterministic simulation: fake clock + scheduled cleaner against a reference window; recording Stats/Logger against the sent response under seeded interleavings",
+    },
 }
